@@ -930,6 +930,7 @@ def search_probes(ctx):
 
 # ============================================================================ search(): probes on general (non-parallelogram) cells
 
+SCALES = [1e-9, 1e-6, 1e-3, 1e3, 1e6]
 GENERAL_ELEMS = {
     'quad': ['ElementQuad1', 'ElementQuad2', 'ElementQuadS2', 'ElementVector:ElementQuad1', 'ElementVector:ElementQuad2', 'ElementQuadP:3', 'ElementQuad0'],
     'hex': ['ElementHex1', 'ElementHex2', 'ElementVector:ElementHex1', 'ElementHex0'],
@@ -1007,6 +1008,7 @@ def search_probes_general(ctx):
     import skfem
     rng = ctx.rng
     worst, n = 0.0, 0
+    worst_scaled, nscaled = 0.0, 0
     for kind, names in GENERAL_ELEMS.items():
         for rep in range(ctx.n(2, 6)):
             m, moved = general_mesh(rng, kind, some_affine=(rep % 2 == 0))
@@ -1079,6 +1081,32 @@ def search_probes_general(ctx):
                     r0 = float(np.asarray(ex_v)[(0,) * len(tord) + (1,)])
                     if abs(v0 - r0) / scale > 1e-9:
                         ctx.fail(f'point_source:{key}:exact-affine-function', f'point_source(x) . y = {v0}, exact value {r0}', data)
+                # scale covariance: the same mesh and points scaled by s (tiny ... huge coordinates) give the same values for the
+                # same coefficient vector (the inverse map must not depend on the absolute size of the coordinates)
+                for sc in SCALES:
+                    ms_ = type(m)(m.p * sc, m.t)
+                    d_s = dict(data, scale=sc)
+                    try:
+                        bss = skfem.Basis(ms_, make_elem(ename))
+                        got_s = (bss.probes(x * sc) @ y).reshape(tord + (x.shape[1],))
+                        itp_s = np.asarray(bss.interpolator(y)(x * sc)).reshape(got.shape)
+                    except Exception as ex:      # noqa: BLE001 - interior points of a valid (scaled) mesh
+                        if isinstance(ex, ValueError) and 'outside' in str(ex):
+                            # the finder's absolute slack at this scale: the F11 class only if a point misses by rounding noise
+                            cls_ = [raise_class(ms_, tuple(Fr(float(v)) for v in (x * sc)[:, c_])) for c_ in range(x.shape[1])
+                                    if run_finder(ms_, [tuple(Fr(float(v)) for v in (x * sc)[:, c_])])[0] == 'raises']
+                            if cls_ and all(c_[0] == 'f11' for c_ in cls_):
+                                ctx.fail(F11_KEY, F11_TEXT + f' (mesh scaled by {sc:g})', d_s)
+                                continue
+                        ctx.fail(f'probes:{key}:scaled-mesh:exception', f'probes / interpolator on the mesh scaled by {sc:g} raised '
+                                 f'{type(ex).__name__}: {ex}', d_s)
+                        continue
+                    ds_ = max(float(np.max(np.abs(got_s - got))), float(np.max(np.abs(itp_s - got)))) / scale
+                    worst_scaled = max(worst_scaled, ds_)
+                    nscaled += 1
+                    if ds_ > 1e-7:
+                        ctx.fail(f'probes:{key}:scaled-mesh:value', f'probes / interpolator on the mesh scaled by {sc:g} differ from the '
+                                 f'unscaled mesh by {ds_:.2e} (same coefficients, scaled points)', dict(d_s, diff=ds_))
                 # quadrature points of distorted and plain cells together
                 gx = bs.global_coordinates().value
                 sub = (touched[:2] + plain[:1] + touched[2:3])[:4]
@@ -1105,7 +1133,9 @@ def search_probes_general(ctx):
                             else:
                                 ctx.fail(f'probes-at-quadrature:{key}:raises', f'finder raised on the quadrature point {fl(xp)}: {ex}', dict(data, point=[str(v) for v in xp]))
                             break
-    ctx.extra['probes_general_search'] = {'configurations': n, 'max_relative_discrepancy': worst, 'tolerance': 1e-9}
+    ctx.extra['probes_general_search'] = {'configurations': n, 'max_relative_discrepancy': worst, 'tolerance': 1e-9,
+                                          'scaled_configurations': nscaled, 'scales': SCALES,
+                                          'max_relative_discrepancy_scaled_vs_unscaled': worst_scaled, 'tolerance_scaled': 1e-7}
 
 
 # ============================================================================ search(): restricted bases, trailing axes, integer queries
@@ -1269,6 +1299,23 @@ def replay(ctx, data):
         exact = [c for c in range(m.t.shape[1]) if inc(m, c, x)]
         ctx.log('finder result', r, 'exactly containing cells', exact[:6], 'best float min-barycentric', float_best(m, x))
         bad = (r[0] == 'raises' and exact) or (r[0] == 'ok' and r[1][0] not in exact)
+        if bad:
+            ctx.fail(data['key'], data['what'], inp)
+    elif site == 'probes-general' and 'scale' in inp:
+        m0 = getattr(skfem, inp['mesh_class'])(np.array(inp['p']), np.array(inp['t']))
+        m = type(m0)(m0.p * inp['scale'], m0.t)
+        x = np.array(inp['points'])
+        b0, b1 = skfem.Basis(m0, make_elem(inp['element'])), skfem.Basis(m, make_elem(inp['element']))
+        y = np.cos(1.0 + 0.37 * np.arange(b0.N))
+        ref = b0.probes(x) @ y
+        try:
+            got = b1.probes(x * inp['scale']) @ y
+            diff = float(np.max(np.abs(got - ref)))
+            ctx.log('scaled vs unscaled: max abs difference', diff)
+            bad = diff > 1e-7 * (1 + float(np.max(np.abs(ref))))
+        except Exception as ex:      # noqa: BLE001
+            ctx.log('raised', type(ex).__name__, ex)
+            bad = True
         if bad:
             ctx.fail(data['key'], data['what'], inp)
     elif site == 'probes-general':
